@@ -323,6 +323,41 @@ par%(u)s(n: SI): SI == {
     return d, [], "par%s(%d)" % (u, max(2, min(n, 4000)))
 
 
+def b_chain(u, rng, n):
+    """A long chain of cells linked through a field that is NOT the last word of the cell
+    (the marker cannot follow it by tail call): deep marker recursion."""
+    length = rng.choice([3000, 12000, 25000, 40000, 60000])
+    d = '''
+Cell%(u)s: with {
+	nil:   %%;
+	nil?:  %% -> Boolean;
+	cell:  (%%, Integer) -> %%;
+	next:  %% -> %%;
+	value: %% -> Integer;
+} == add {
+	Rep == Record(next: %%, value: Integer);
+	import from Rep;
+	nil: %% == (nil$Pointer) pretend %%;
+	nil?(c: %%): Boolean == nil?(c pretend Pointer)$Pointer;
+	cell(n: %%, v: Integer): %% == per [n, v];
+	next(c: %%): %% == rep(c).next;
+	value(c: %%): Integer == rep(c).value;
+}
+chn%(u)s(n: SI): Integer == {
+	import from Cell%(u)s, List Integer;
+	c: Cell%(u)s := nil;
+	big: Integer := 10^30;
+	for i: SI in 1..n repeat c := cell(c, big + i::Integer);
+	l: List Integer := nil;
+	for i: SI in 1..%(churn)d repeat l := cons(10^25 + i::Integer, l);
+	s: Integer := 0;
+	while not nil? c repeat { s := s + value c; c := next c }
+	s + (#l)::Integer
+}
+''' % dict(u=u, churn=rng.choice([20000, 100000, 300000]))
+    return d, [], "chn%s(%d)" % (u, length)
+
+
 def b_frag(u, rng, n):
     """Fragmentation followed by large objects: a long list is thinned so that the next
     collection frees many pages but no long run of adjacent ones, then arrays of tens
@@ -365,7 +400,7 @@ BLOCKS = [("list", b_list, 4), ("record", b_record, 4), ("node", b_node, 2), ("c
           ("array", b_array, 3), ("domain", b_domain, 1),
           ("exn", b_exn, 2), ("union", b_union, 2), ("float", b_float, 1), ("tokens", b_tokens, 1),
           ("deeprec", b_deeprec, 2), ("ptrarray", b_ptrarray, 2),
-          ("frag", b_frag, 0)]		# weight 0: only when forced (it is expensive)
+          ("frag", b_frag, 0), ("chain", b_chain, 0)]	# weight 0: only when forced (expensive)
 
 
 def gen_blocks(rng, size="small", force=()):
